@@ -1174,8 +1174,8 @@ Theorem node_loop_abort_passes : forall rec g real beta remaining m rest index l
   node_loop rec g real beta remaining (m :: rest) index l = Aborted sa.
 Proof. intros. rewrite node_loop_cons, H. reflexivity. Qed.
 
-Theorem node_finish_abort_passes : forall g st remaining alpha beta sa,
-  node_finish g st remaining alpha beta (Aborted sa) = (Aborted sa, sa).
+Theorem node_finish_abort_passes : forall g st real remaining alpha beta sa,
+  node_finish g st real remaining alpha beta (Aborted sa) = (Aborted sa, sa).
 Proof. reflexivity. Qed.
 
 Theorem root_loop_abort_passes : forall g rem' m rest index r sa,
